@@ -37,6 +37,21 @@ pub open spec fn added_upto<F: Fn(&TaskMap) -> bool>(f: F, sq: Seq<(Uuid, TaskMa
 }
 pub open spec fn seq_upto(sq: Seq<(Uuid, TaskMap)>, k: int, u: Uuid) -> bool { exists|i: int| 0 <= i < k && #[trigger] sq[i].0 == u }
 pub open spec fn in_seq(sq: Seq<(Uuid, TaskMap)>, u: Uuid) -> bool { exists|i: int| 0 <= i < sq.len() && #[trigger] sq[i].0 == u }
+pub open spec fn pair_at(w: Ws, i: int, j: int, xa: Option<Uuid>, xb: Option<Uuid>) -> bool {
+    1 <= i < j < w.len() && w[i] == xa && w[j] == xb
+}
+/// entries of x taken from the old set w at positions <= k, in the old relative order
+#[verifier::opaque]
+pub open spec fn pairs_upto(w: Ws, x: Ws, k: int) -> bool {
+    forall|a: int, b: int| #![trigger x[a], x[b]] 0 <= a < b < x.len() && x[a] is Some && x[b] is Some
+        ==> exists|i: int, j: int| j <= k && #[trigger] pair_at(w, i, j, x[a], x[b])
+}
+/// C15: tasks that stay keep their relative order, and nothing new is placed before a task that stays
+#[verifier::opaque]
+pub open spec fn order_ok(w: Ws, x: Ws) -> bool {
+    forall|a: int, b: int| #![trigger x[a], x[b]] 0 <= a < b < x.len() && x[a] is Some && x[b] is Some && ws_has(w, x[b]->Some_0)
+        ==> exists|i: int, j: int| #[trigger] pair_at(w, i, j, x[a], x[b])
+}
 /// what phases 1 and 2 must have computed
 #[verifier::opaque]
 pub open spec fn phase12_post<F: Fn(&TaskMap) -> bool>(f: F, renumber: bool, w: Ws, t: State, n: Ws) -> bool {
@@ -47,6 +62,7 @@ pub open spec fn phase12_post<F: Fn(&TaskMap) -> bool>(f: F, renumber: bool, w: 
             #[trigger] n[i] == (if w[i] is Some && want(f, t, w[i]->Some_0) { w[i] } else { None::<Uuid> }))
             && (forall|i: int| w.len() <= i < n.len() ==> (#[trigger] n[i]) is Some)
     &&& renumber ==> forall|i: int| 1 <= i < n.len() ==> (#[trigger] n[i]) is Some
+    &&& order_ok(w, n)
 }
 
 
@@ -60,11 +76,55 @@ pub open spec fn rebuild_post<F: Fn(&TaskMap) -> bool>(f: F, renumber: bool, w: 
             ==> i < w2.len() && w2[i] == #[trigger] w[i]
     // with renumbering there are no gaps
     &&& renumber ==> forall|i: int| 1 <= i < w2.len() ==> (#[trigger] w2[i]) is Some
+    // tasks that stay keep their relative order; newcomers come after every task that stays
+    &&& order_ok(w, w2)
 }
 /// storage contents (before trimming) while the "shrink" loop runs: new_ws, then blanks up to i, then old tail
 pub open spec fn less_state(n: Ws, w: Ws, i: int) -> Ws {
     Seq::new(w.len(), |j: int| if j < n.len() { n[j] } else if j < i { None } else { w[j] })
 }
+/// the stored working set keeps the order established by the scan (split from lemma_final_ws_props to keep each query small)
+pub proof fn lemma_final_ws_order<F: Fn(&TaskMap) -> bool>(f: F, renumber: bool, w: Ws, t: State, n: Ws)
+    requires phase12_post(f, renumber, w, t, n), ws_wf2(w),
+    ensures order_ok(w, final_ws(n, w.len() as int))
+{
+    reveal(phase12_post);
+    reveal(order_ok);
+    let l = w.len() as int;
+    let w2 = final_ws(n, l);
+    if n.len() <= l {
+        lemma_trim_prefix(n);
+        assert(order_ok(w, w2)) by {
+            assert forall|a: int, b: int| #![trigger w2[a], w2[b]] 0 <= a < b < w2.len() && w2[a] is Some && w2[b] is Some && ws_has(w, w2[b]->Some_0)
+                implies exists|i: int, j: int| #[trigger] pair_at(w, i, j, w2[a], w2[b]) by {
+                assert(w2[a] == n[a] && w2[b] == n[b]);
+                let (i, j) = choose|i: int, j: int| #[trigger] pair_at(w, i, j, n[a], n[b]);
+                assert(pair_at(w, i, j, w2[a], w2[b]));
+            }
+        }
+    } else {
+        let a = ws_trim(n.take(l));
+        let b = n.skip(l);
+        lemma_trim_prefix(n.take(l));
+        assert(w2 == a + b);
+        assert forall|j: int| 0 <= j < w2.len() implies #[trigger] w2[j] == n[if j < a.len() { j } else { l + (j - a.len()) }] by {
+            if j < a.len() { assert(a[j] == n.take(l)[j]); } else { assert(w2[j] == b[j - a.len()]); }
+        }
+        assert(order_ok(w, w2)) by {
+            assert forall|a: int, b: int| #![trigger w2[a], w2[b]] 0 <= a < b < w2.len() && w2[a] is Some && w2[b] is Some && ws_has(w, w2[b]->Some_0)
+                implies exists|i: int, j: int| #[trigger] pair_at(w, i, j, w2[a], w2[b]) by {
+                let al = a_len(n, l);
+                let an = if a < al { a } else { l + (a - al) };
+                let bn = if b < al { b } else { l + (b - al) };
+                assert(w2[a] == n[an] && w2[b] == n[bn]);
+                assert(0 <= an < bn < n.len());
+                let (i, j) = choose|i: int, j: int| #[trigger] pair_at(w, i, j, n[an], n[bn]);
+                assert(pair_at(w, i, j, w2[a], w2[b]));
+            }
+        }
+    }
+}
+pub open spec fn a_len(n: Ws, l: int) -> int { ws_trim(n.take(l)).len() as int }
 pub proof fn lemma_final_ws_props<F: Fn(&TaskMap) -> bool>(f: F, renumber: bool, w: Ws, t: State, n: Ws)
     requires phase12_post(f, renumber, w, t, n), ws_wf2(w),
     ensures rebuild_post(f, renumber, w, t, final_ws(n, w.len() as int))
@@ -134,6 +194,7 @@ pub proof fn lemma_final_ws_props<F: Fn(&TaskMap) -> bool>(f: F, renumber: bool,
             assert(w2 =~= n);
         }
     }
+    lemma_final_ws_order(f, renumber, w, t, n);
     assert(ws_wf2(w2));
     assert forall|u: Uuid| ws_has(w2, u) <==> want(f, t, u) by {
         assert(ws_has(w2, u) <==> ws_has(n, u));
